@@ -16,7 +16,7 @@ RULE = ("configuration grid: number of keys 0..4 x device outcome {no auth, acce
 ASSUMPTIONS = ["stub signers whose signature is a keyed hash of the token stand in for RSA (real RSA signers are exercised in a subset and in C17)",
                "a raising auth callback propagates; only `available == False` is demanded then", "auth_timeout_s=None is exercised only with a device that answers"]
 SHARDS = {"quick": 8, "thorough": 16}
-TIME_BUDGET = {"quick": 60, "thorough": 600}
+TIME_BUDGET = {"quick": 300, "thorough": 1800}
 FLOORS = {"quick": {"signatures_checked": 500, "pubkey_offers": 100, "connects": 2000, "distinct": 800, "rechallenges_after_pubkey": 50}, "thorough": {"signatures_checked": 5000, "connects": 8000}}
 EXHAUSTIVE = {"quick": False, "thorough": True}
 
